@@ -162,9 +162,14 @@ void run_episode(Ctx &x, const Ep &e) {
         if (err) p_error_free(err);
       } else {
         PSocket *cl = p_socket_new(P_SOCKET_FAMILY_INET, P_SOCKET_TYPE_STREAM, P_SOCKET_PROTOCOL_TCP, NULL);
+        // the application's choice of SO_LINGER 0: closing resets the connection, which leaves no TIME_WAIT entry (tens of thousands of
+        // episodes must not exhaust the machine's ephemeral ports)
+        auto reset_on_close = [](PSocket *s) { if (!s) return; struct linger lg = {1, 0}; setsockopt(p_socket_get_fd(s), SOL_SOCKET, SO_LINGER, &lg, sizeof lg); };
+        reset_on_close(cl);
         p_socket_connect(cl, loc, NULL);
         p_socket_set_timeout(srv, 2000);
         PSocket *acc = p_socket_accept(srv, NULL);
+        reset_on_close(acc);
         if (acc) {
           PSocketAddress *ra = p_socket_get_remote_address(acc, NULL); if (ra) p_socket_address_free(ra);
           if (mode == 3) { p_socket_set_timeout(acc, 10 + e.b % 20); char buf[8]; PError *err = NULL; if (p_socket_receive(acc, buf, sizeof buf, &err) < 0) x.failing_call = true; if (err) p_error_free(err); }
